@@ -23,9 +23,10 @@ NRec == Len(Rec)
 MAXW == 3
 Worlds == 1..MAXW
 
-CompSeq == <<"Z", "B", "S", "W", "H">>
-Comps == {"Z", "B", "S", "W", "H"}
-Tokened == {"S", "W", "H", "RA", "RB", "RC"}
+CompSeq == <<"Z", "B", "S", "W", "H", "T5", "T6", "T7", "T8">>   \* registry order: bit k-1 = CompSeq[k]
+NC == Len(CompSeq)
+Comps == {CompSeq[k] : k \in 1..NC}
+Tokened == (Comps \ {"Z", "B"}) \cup {"RA", "RB", "RC"}
 Counted == {"Z", "B"}
 ResNames == {"RA", "RB", "RC"}
 ResSeq == <<"RA", "RB", "RC">>
@@ -37,7 +38,7 @@ Norm(c, v) == IF c = "Z" THEN 0 ELSE IF c = "B" THEN v % 251 ELSE v
 
 (* component set encoded by identifier bits *)
 RECURSIVE BitSet(_, _)
-BitSet(bits, k) == IF k > 5 THEN {}
+BitSet(bits, k) == IF k > NC THEN {}
                    ELSE (IF bits % 2 = 1 THEN {CompSeq[k]} ELSE {}) \cup BitSet(bits \div 2, k + 1)
 CompsOfBits(bits) == BitSet(bits, 1)
 
@@ -66,7 +67,7 @@ ResVals(wo) == [r \in ResNames |-> wo.res[r].v]
 
 OrderComps(order) == {CompSeq[order[k] + 1] : k \in DOMAIN order}
 RowVals(order, vals) == [c \in OrderComps(order) |->
-                           Norm(c, vals[(CHOOSE k \in 1..5 : CompSeq[k] = c)])]
+                           Norm(c, vals[(CHOOSE k \in 1..NC : CompSeq[k] = c)])]
 
 -----------------------------------------------------------------------------
 (* Ledger                                                                    *)
@@ -474,7 +475,7 @@ OpQuery ==
 (* must give the next dump (slots, free list in order, identifier columns in order, both lookups,   *)
 (* len).  A disagreement is not a property violation (policy is free); it means the exhaustive      *)
 (* model-checking result of MCWorld no longer speaks for this code, and is reported as DRIFT.       *)
-WS == INSTANCE WorldStore WITH NComp <- 5
+WS == INSTANCE WorldStore WITH NComp <- 9
 StoreOfDump(d) ==
   LET bitsOf(t) == d.tables[t + 1].bits
       keys == {d.tables[k].bits : k \in DOMAIN d.tables} IN
